@@ -168,6 +168,9 @@ func c01SemSpecs(quick bool) []*SeqSpec {
 
 func init() {
 	comboCheck(comboDef{id: "C01", level: "exploration",
+		enum: func(q bool) []*EnumPlan {
+			return []*EnumPlan{{Name: "text-pooled-commands", Cases: c01TextCases, Eval: evalC01Text}}
+		},
 		sched: func(q bool) *SchedPlan {
 			specs := coreSchedSpecs(q)
 			// holds that enter a long expiry table at once (persist-immediately flag, expiry > 5 s): the key's
